@@ -127,15 +127,13 @@ pub fn run(input: &str, output: &str, opts: Opts) -> std::io::Result<i32> {
                 std::thread::sleep(Duration::from_micros(delay));
                 emit(json!({"ev":"spawn","t":t}));
                 let mut actor = Actor { t };
-                let mut touched = false;
+                // the ring is known by its thread before the first command is pushed on it (a drain that
+                // cannot be attributed would leave that command "waiting" in Abs's cut bookkeeping)
+                if let Some(chan) = verif::touch_sender() {
+                    shared().chan_thread.lock().unwrap().insert(chan, t);
+                }
                 for st in &prog {
                     exec(&mut actor, &rc, st);
-                    if !touched {
-                        if let Some(chan) = verif::touch_sender() {
-                            shared().chan_thread.lock().unwrap().insert(chan, t);
-                            touched = true;
-                        }
-                    }
                     if st["op"] == "exit" {
                         break;
                     }
